@@ -433,12 +433,13 @@ MANIFEST_TEXT = {
         level_text="Proof: for every configuration (1..16 places) and every value of f64.Int (int64 with wrap-around) and f128.Int (big.Int "
                    "parsing, saturation), FromString applied to String(), StringWithSign(), Comma(), CommaWithSign() and the quoted JSON text "
                    "returns exactly the value; Comma only adds separators to String(); decimal printing/parsing of every integer below 10^45 "
-                   "are inverse; Unquote undoes quoting -- Coq theorems over the byte-level model of String/FromString/CommaFromStringNum/Unquote. "
-                   "Literal truncation of arbitrary decimal literals, no panic on arbitrary bytes, and CheckedAs to floats are decided per "
+                   "are inverse; Unquote undoes quoting; FromString of any plain decimal literal (optional sign, optional integer part, optional "
+                   "fraction of any length) is that number truncated toward zero to D places (saturated for f128; for f64 whenever it is an "
+                   "int64) -- Coq theorems over the byte-level model of String/FromString/CommaFromStringNum/Unquote. "
+                   "No panic on arbitrary bytes, overflowing f64 literals and CheckedAs to floats are decided per "
                    "run: byte-exact correspondence of the model with the real functions and an exact-rational oracle on the implementation's "
                    "own outputs.",
-        level_note="Trusted: Coq kernel, extraction, drivers, harness; model hand-written and tied by correspondence; the truncation of "
-                   "arbitrary literals is not a theorem (checked per run); the exponent detour and the float formatting of the standard "
+        level_note="Trusted: Coq kernel, extraction, drivers, harness; model hand-written and tied by correspondence; the exponent detour and the float formatting of the standard "
                    "library are not modelled.",
         technique="Coq proof (digit-list induction) on a hand-written Gallina model + differential correspondence check with exact-rational oracle"),
     "C03": dict(
